@@ -41,6 +41,7 @@ THEOREMS = [
     "Nix.C20.dup_refused_existing",
     "Nix.C20.source_untouched",
     "Nix.C20.shallow_contents",
+    "Nix.C20.shallow_section_result",
     "Nix.C20.copy_closed",
     "Nix.C20.path_stays_in_copy",
     "Nix.C20.old_links",
@@ -77,15 +78,26 @@ TRUSTED_EXTRA = [
 READY = True
 MANIFEST = {
     "level_text": "Kernel-checked theorems over a Lean model of HDF5's object copy on the object graph under a NIX file "
-                  "(Store/Copy.lean) and of nixio's four copy entry points: the copied set is exactly what is reachable "
+                  "(Store/Copy.lean) and of nixio's copy entry points: the copied set is exactly what is reachable "
                   "from the source, the key map is a graph isomorphism onto new nodes (same kind, attributes, ordered "
                   "links mapped through it), all links of the copy stay inside the copy, ids are kept or all fresh and "
-                  "distinct, the supplied name is used, an existing name is refused, and every old node is unchanged "
-                  "except for the one new link in the destination container — for every source graph, source node, "
-                  "destination file, both id policies, same-file and cross-file. Tied to the code by differential "
-                  "execution of random two-file histories with copies (HDF5-level dumps of both files compared).",
-    "level_note": "Trusted: Lean kernel; standard axioms; the correspondence harness; H5Ocopy semantics are modelled, "
-                  "not verified; dataset contents are checked by the implementation-side oracle only.",
+                  "distinct (groups and datasets alike), the supplied name is used, an existing name is refused, every "
+                  "old node is unchanged except for the one new link in the destination container, the final state of a "
+                  "shallow section copy (properties re-added in order), and independence for every history of API calls "
+                  "made on the copy's side (invariants SideInv / IdInv) - for every source graph, source node, "
+                  "destination file, both id policies, same-file and cross-file. Tied to the code (a) by an ast "
+                  "translator that renders H5Group.copy (rename, id regeneration, guards of the id visitor) and the "
+                  "eight copy entry points as data, with theorems that the interpretation of the generated shapes is the "
+                  "model for all arguments (an edited guard / flag breaks lake build on a named theorem), and (b) by "
+                  "differential execution of random two-file histories with copies of every kind incl. data frames "
+                  "(HDF5-level dumps of both files compared).",
+    "level_note": "Trusted: Lean kernel; standard axioms; the translator harness/extract/copyshape.py and the "
+                  "correspondence harness; H5Ocopy semantics are modelled, not verified; dataset contents are checked by "
+                  "the implementation-side oracle only. Partial: deletion is global by entity_id (open finding shared "
+                  "with C04; repair proposed in reports/C20-delete-by-object.*); history-level independence is proved "
+                  "for calls on the copy's side, the converse direction per kind of call.",
+    "technique": "Lean 4 model + theorems (graph isomorphism, invariants over histories), ast translator to generated "
+                 "shape definitions, differential correspondence, implementation-side property oracle",
 }
 
 KNOWN_CLASS = "delete-hits-same-id-copy"
